@@ -162,6 +162,24 @@ def rejects_reflections(env):
         env.raises(f'{nm}: a scaled reflection is rejected', ValueError, f)
 
 
+@obligation('C11.check.rejects_anisotropic_scaling', functions=[f'{CV}:mat2Sim3', f'{CV}:mat2RxSO3', f'{CV}:from_matrix'], max_paths=64)
+def rejects_anisotropic(env):
+    """diag(1, 1, 1 + e) (s R) with e = 1/10 is no scaled rotation (its rows have different lengths; U / cbrt(det U) is off from orthogonal by ~1e-1):
+    with check=True every converter with a scale raises - the documented R = U / s is what is checked, not a row-normalised matrix"""
+    cv = env.load(CV); pp = env.load('pypose'); T = env.T
+    sx = env.scalar('s', positive=True, regimes=('generic',))[0]; tx = env.vec('t', 3)
+    env.assume('scale in [1e-3, 1e3] (the property quantifier)', (sx >= (Q(1, 1000) if env.sym else 1e-3)) & (sx <= 1000))
+    qx = T.tensor([Q(1, 5), Q(2, 5), Q(2, 5), Q(4, 5)]) if env.sym else T.tensor([0.2, 0.4, 0.4, 0.8], dtype=tx.dtype)
+    R = S.quat_matrix(T, qx)
+    O = sx * 0
+    Dg = S.mat(T, [[O + 1, O, O], [O, O + 1, O], [O, O, O + (Q(11, 10) if env.sym else 1.1)]])
+    U = Dg @ (sx * R)
+    F4 = T.cat([T.cat([U, tx.reshape(3, 1)], -1), T.stack([O, O, O, O + 1]).reshape(1, 4)], 0)
+    for nm, f in {'mat2RxSO3': lambda: cv.mat2RxSO3(U, check=True), 'mat2Sim3 (4x4)': lambda: cv.mat2Sim3(F4, check=True), 'mat2Sim3 (3x4)': lambda: cv.mat2Sim3(F4[0:3, :], check=True),
+                  'from_matrix(Sim3)': lambda: cv.from_matrix(F4, pp.Sim3_type, check=True), 'from_matrix(RxSO3)': lambda: cv.from_matrix(U, pp.RxSO3_type, check=True)}.items():
+        env.raises(f'{nm}: an anisotropically scaled rotation is rejected', ValueError, f)
+
+
 @obligation('C11.check.tolerances_reach_the_rotation_check', functions=[f'{CV}:mat2SE3', f'{CV}:mat2Sim3', f'{CV}:mat2RxSO3', f'{CV}:from_matrix'], max_paths=64)
 def tol_plumbing(env):
     """the caller's check / rtol / atol are the ones the rotation check (mat2SO3, contract C11.check.rejects_non_rotations) is run with - for
